@@ -44,6 +44,13 @@ VARIANTS = {
     'complementary_marg': [{}, {'gain': 0.5}, {'gain': 0.98}],
     'fkf': [{}],
 }
+# filters whose configuration contains arrays: the companion is built from the same array objects
+COMPANION_CONFIG = {
+    'mahony_imu': {'b0': [0.0, 0.0, 0.0]}, 'mahony_marg': {'b0': [0.0, 0.0, 0.0]},
+    'ekf_imu': {'P': [[1.0 if i == j else 0.0 for j in range(4)] for i in range(4)]},
+    'ekf_marg': {'P': [[1.0 if i == j else 0.0 for j in range(4)] for i in range(4)]},
+    'roleq': {'weights': [1.0, 1.0]},
+}
 CAL_CAP = 60000          # longest history used while calibrating
 MAX_N = 120000
 
@@ -117,14 +124,34 @@ def error_history(scn, n, with_twin=False):
     pp = dict(p)
     if kind.q0_route == 'q0':
         pp['q0'] = [float(x) for x in q_init]
+    # a companion instance of the same class, built by the application from the *same* configuration arrays
+    # (bias, covariance, weights) but started far from the truth and stepped in between: it must not matter
+    comp = None
+    if scn.get('companion') and kind.name in COMPANION_CONFIG:
+        cfg = {k: v for k, v in COMPANION_CONFIG[kind.name].items()}
+        pp.update({k: v for k, v in cfg.items() if k not in pp})
+        shared = C.make_config({k: pp[k] for k in C.CONFIG_ARRAYS if k != 'q0' and pp.get(k) is not None})
+        pp.update(shared)
     try:
         inst = kind.make(pp, dt, dip)
+        if scn.get('companion') and kind.name in COMPANION_CONFIG:
+            qc = qm.qnorm(qm.qmul(target, qm.axang(scn['axis'][::-1], math.radians(scn['companion']))))
+            pc = dict(pp)
+            if kind.q0_route == 'q0':
+                pc['q0'] = [float(x) for x in qc]
+            comp = [kind.make(pc, dt, dip), qc, pc]
     except Exception as e:      # noqa: BLE001
         return errs, err_of(q_init), f'raised:{type(e).__name__}'
     q = q_init.copy()
     errs[0] = err_of(q)
     dtc = bool(p.get('dt_call', False))
     for k in range(1, n):
+        if comp is not None:
+            try:
+                comp[1] = K.out_to_array(kind.step(comp[0], comp[2], comp[1], g[k], a[k] if 'a' in kind.sensors else None,
+                                                   m[k] if 'm' in kind.sensors else None, dtc))
+            except Exception:       # noqa: BLE001 - the companion's own fate is not judged here
+                comp = None
         try:
             q = K.out_to_array(kind.step(inst, pp, q, g[k], a[k] if 'a' in kind.sensors else None,
                                          m[k] if 'm' in kind.sensors else None, dtc))
@@ -157,6 +184,7 @@ class Check:
         'the convention table (which reference directions each filter assumes, and in which direction its quaternion rotates) is an assumption of this oracle; the e0=0 twin of every run is its standing self-check',
         'gains are drawn from a fixed menu per filter (default and two or three non-default sets), dt from {2,10,50} ms',
         'FKF offers no route for an initial orientation: only the e0=0 clause is checked for it',
+        'in a third of the runs a companion instance of the same class, built from the same configuration array objects (Mahony b0, EKF P, ROLEQ weights; the values are the class defaults) but started 90-170 degrees away, is stepped in between: the budgets were measured without it, i.e. it is assumed not to matter',
     ]
     components = {
         'real': ['Madgwick, Mahony, EKF, UKF, AQUA, ROLEQ (streaming update methods, q0 route), Complementary and FKF (batch constructor)', 'ahrs.Quaternion.to_angles (to express the initial attitude for Complementary w0)'],
@@ -190,7 +218,8 @@ class Check:
         return {'kind': kind, 'variant': vi, 'params': params, 'dt': dt, 'e0_deg': e0, 'axis': W.rand_unit(rnd),
                 'q_true': W.rand_unit(rnd, 4), 'g': 9.80665 if adaptive else 9.81 * rnd.uniform(0.5, 2.0),
                 'mscale': 50.0 * rnd.uniform(0.5, 2.0), 'dip': rnd.choice([-70.0, -45.0, -10.0, 20.0, 45.0, 60.0, 66.0, 75.0]),
-                'gyr_noise': 10 ** rnd.uniform(-6, -3.3), 'noise_seed': rnd.randrange(1 << 30)}
+                'gyr_noise': 10 ** rnd.uniform(-6, -3.3), 'noise_seed': rnd.randrange(1 << 30),
+                'companion': (rnd.choice([90.0, 150.0, 170.0]) if rnd.random() < 0.35 else 0.0)}
 
     def gen(self, seed, tier):
         rnd = random.Random(f'C05/{seed}')
